@@ -608,6 +608,26 @@ RecvAfter(policy, ver, names, target) == DecodeInto(policy, ver, RecvFold(policy
 (* L1 on the model: the receiver's content is the document under test *)
 RecvL1(policy, ver, names, target) == Same(RecvAfter(policy, ver, names, target), target)
 
+(* Kind-level receivers.  Every object kind is a public type with its own UnmarshalJSON ("sets X to a    *)
+(* copy of data"), and every referable kind has a wrapper type (SchemaRef ...: a reference or a value).   *)
+(* The same clause at that level: a value of the kind's type (entry "kind") or of its wrapper type (entry *)
+(* "wrap") that already holds an object -- a reference object, the bare object, the object with every     *)
+(* field, extension and unknown key -- is unmarshalled into again; what it serialises to afterwards is    *)
+(* what a fresh value gives for the same input.  The input is the bare object of the case (Gen_C03!Frag), *)
+(* not a document.                                                                                         *)
+WrapKinds == {"Schema", "Response", "Parameter", "Example", "RequestBody", "Header", "SecurityScheme", "Link",
+              "Callback", "Schema2"}
+KindEntries(kind) == {"kind"} \cup (IF kind \in WrapKinds THEN {"wrap"} ELSE {})
+KPriorNames(kind, entry) == {"kfull", "kmin"} \cup (IF entry = "wrap" THEN {"kref", "krefx"} ELSE {})
+KFull(kind) ==
+   LET names == {n \in Optional(kind) : FieldOf(kind, n).c # "pref" /\ ~\E p \in Excl(kind) : p[2] = n}
+       o == ApplyV(kind, Min(kind), names)
+   IN IF UnkOK(kind) THEN SetKey(SetKey(o, "x-prior", AnyV), "priorUnknown", O1("u", Nm("1")))
+      ELSE IF ExtOK(kind) THEN SetKey(o, "x-prior", AnyV) ELSE o
+KPriorDoc(kind, name) ==
+   CASE name = "kfull" -> KFull(kind) [] name = "kmin" -> Min(kind)
+     [] name = "kref" -> RefObj(kind) [] name = "krefx" -> RefSib(kind)
+
 (* first difference between two values, as a JSON-pointer-like path (for reports) *)
 RECURSIVE Diff(_, _)
 Diff(x, y) ==
